@@ -4,6 +4,7 @@ graphics_command.py, byte for byte, over the presence lattice of every command t
 Search oracle: Spec.KittyProtoSpec.conforms (independent protocol parser + expected field table)
 applied to the implementation's bytes, on every case."""
 import itertools
+import os
 
 import cmdcodec
 import common
@@ -72,6 +73,22 @@ def gen_cases(ctx, tup):
     for _ in range(ctx.pick(8000, 100000)):
         c = g.random_command()
         yield type(c).__name__.replace("Command", "").lower(), c
+    # file-like payloads (io.BytesIO, open files) whose stream position is anywhere: at 0, in the middle, at the end
+    # (a freshly written buffer, a file whose header was peeked at, a stream that was already read once): the payload
+    # of the escape is the WHOLE content whatever the position
+    import io
+    for i in range(ctx.pick(600, 6000)):
+        content = g.payload(ctx.rng.choice(["binary", "binary", "small", "filename", "empty"]))
+        if i % 7 == 6:
+            path = os.path.join(ctx.work, f"c06-payload-{i % 5}.bin")
+            with open(path, "wb") as f:
+                f.write(content)
+            stream = open(path, "rb")
+        else:
+            stream = io.BytesIO(content)
+        stream.seek(ctx.rng.choice([0, len(content), len(content) // 2, ctx.rng.randrange(len(content) + 1)]))
+        own = [f for f in g.FIELDS_T if ctx.rng.random() < 0.3]
+        yield "transmit", g.transmit(own, None, data=stream)
 
 
 def exhaustive_transmit(ctx, model, tup, cov):
